@@ -39,6 +39,7 @@ fn main() {
         ("C05", "drive") => c05::drive_c05(rest),
         ("C09", "drive") => c05::drive_c09(rest),
         ("C06", "drive") => c06::drive_c06(rest),
+        ("C06", "backtrack") => c06::replay_backtrack(rest),
         ("C07", "drive") => c06::drive_c07(rest),
         ("C08", "drive") => c08::drive(rest),
         ("C10", "replay") => c10::replay(rest),
